@@ -104,6 +104,49 @@ def packbits_greedy(row: bytes) -> bytes:
     return bytes(out)
 
 
+def _rows(data, n):
+    return [data[i:i + n] for i in range(0, len(data), n)]
+
+
+def spec_pred_encode(data: bytes, w, h, depth) -> bytes:
+    """Adobe 'ZIP with prediction', before deflate: each scan line is delta coded on its own."""
+    out = bytearray()
+    if depth == 32:
+        for row in _rows(data, 4 * w):
+            planes = b"".join(row[k::4] for k in range(4))          # b0 of every pixel, then b1, b2, b3
+            out += bytes([planes[0]] + [(planes[i] - planes[i - 1]) & 0xFF for i in range(1, len(planes))])
+        return bytes(out)
+    size = depth // 8
+    mod = 1 << depth
+    for row in _rows(data, size * w):
+        words = [int.from_bytes(row[i:i + size], "big") for i in range(0, len(row), size)]
+        deltas = [words[0]] + [(words[i] - words[i - 1]) % mod for i in range(1, len(words))]
+        out += b"".join(x.to_bytes(size, "big") for x in deltas)
+    return bytes(out)
+
+
+def spec_pred_decode(enc: bytes, w, h, depth) -> bytes:
+    out = bytearray()
+    if depth == 32:
+        for row in _rows(enc, 4 * w):
+            acc, planes = 0, bytearray()
+            for i, b in enumerate(row):
+                acc = b if i == 0 else (acc + b) & 0xFF
+                planes.append(acc)
+            for i in range(w):
+                out += bytes(planes[k * w + i] for k in range(4))
+        return bytes(out)
+    size = depth // 8
+    mod = 1 << depth
+    for row in _rows(enc, size * w):
+        acc = 0
+        for i in range(0, len(row), size):
+            v = int.from_bytes(row[i:i + size], "big")
+            acc = v if i == 0 else (acc + v) % mod
+            out += acc.to_bytes(size, "big")
+    return bytes(out)
+
+
 def spec_stream(data: bytes, w, h, depth, version, rowenc):
     rs = row_bytes(w, depth)
     rows = [rowenc(data[k * rs:(k + 1) * rs]) for k in range(h)]
@@ -146,9 +189,9 @@ def allowed_rejection(codec, w, h, depth, version, err, rows_fit):
 
 
 def run(ctx: core.Run):
-    gen = extract_c04.gen_compression(ctx)
+    gen = ctx.regenerate(extract_c04.gen_compression)
     import extract
-    extract.gen_rle(ctx)
+    ctx.regenerate(extract.gen_rle)
     ctx.prove(["PsdVerif.Props.C04"])
     ctx.trusted_base += [
         "Lean 4.33 kernel; axioms allowed: propext, Classical.choice, Quot.sound (audited per theorem)",
@@ -380,6 +423,34 @@ def run(ctx: core.Run):
                     ctx.fail(classify(RLE, w, h, depth, v, f"spec-stream-{ename}"),
                              f"a conforming {ename} PackBits stream does not decode to the pixels ({name})",
                              dict(data=hx(d), stream=hx(s), codec=RLE, w=w, h=h, depth=depth, version=v, impl=name), _short_r(o), short(d))
+    # the same for ZIP with prediction: an independent delta / byte-shuffle coder written from the Adobe
+    # specification (per SCAN LINE; big-endian words; 32-bit rows split into four byte planes), both directions
+    import zlib as _z
+    n_pred = 0
+    for (d, c, w, h, depth, v, tag) in cases:
+        if depth not in (8, 16, 32) or tag == "off-geometry" or w == 0 or h == 0 or len(d) != w * h * depth // 8:
+            continue
+        if tag == "wide" and depth != 8:
+            continue
+        key = ("pred", d, w, h, depth)
+        if key in ctx.distinct:
+            continue
+        enc = spec_pred_encode(d, w, h, depth)
+        o = call(C.decompress, _z.compress(enc), Compression.ZIP_WITH_PREDICTION, w, h, depth, 1)
+        n_pred += 1
+        ctx.count(key, nontrivial=h >= 2 and w >= 2)
+        if o != ("ok", d):
+            ctx.fail(classify(ZIPP, w, h, depth, 1, "spec-stream-prediction"),
+                     "a conforming ZIP-with-prediction stream does not decode to the pixels",
+                     dict(data=hx(d), predicted=hx(enc), w=w, h=h, depth=depth), _short_r(o), short(d))
+        o2 = call(C.compress, d, Compression.ZIP_WITH_PREDICTION, w, h, depth, 1)
+        if o2[0] == "ok":
+            back = spec_pred_decode(_z.decompress(o2[1]), w, h, depth)
+            if back != d:
+                ctx.fail(classify(ZIPP, w, h, depth, 1, "library-stream-not-spec-prediction"),
+                         "the library's ZIP-with-prediction stream does not decode to the pixels under the specification's decoder",
+                         dict(data=hx(d), w=w, h=h, depth=depth), short(back), short(d))
+    ctx.extra["spec_prediction_streams"] = n_pred
     ctx.extra["spec_encoder_streams"] = n_spec
     ctx.extra["zlib_assumption_exercised"] = zip_checked
     ctx.extra["generated_constants"] = gen
